@@ -248,6 +248,16 @@ class Report:
             json.dump(data, f, indent=1, sort_keys=True)
         return p
 
+    def _by_kernel(self):
+        import re as _re
+        d = {}
+        for o in self.obligations:
+            k = _re.sub(r'(path|paths|ref) [0-9./]+', '', o['obligation']).strip()
+            k = _re.sub(r'\s+', ' ', k)
+            e = d.setdefault(k, {'unsat': 0, 'sat': 0})
+            e[o['verdict']] = e.get(o['verdict'], 0) + 1
+        return d
+
     def finish(self):
         wall = time.time() - self.t0
         ev = {
@@ -266,6 +276,7 @@ class Report:
                 'obligations': len(self.obligations),
                 'discharged': len([o for o in self.obligations if o['verdict'] in ('unsat', 'holds')]),
                 'obligation_list': self.obligations[:400],
+                'obligations_by_kernel': self._by_kernel(),
                 'functions_encoded': sorted(self.functions),
                 'std_models_used': sorted(self.models),
                 'havoc_list': sorted(self.havoc),
